@@ -100,7 +100,8 @@ PROPS = {
               'recursive compile calls the builder is not touched, so no panic raised inside a statement, an iteration or a body can be dropped); the same for '
               'the `let` and `let mut` statement arms. The merge network of for-join loops (compile_bitonic_merge) and the value part of assignments are outside '
               'every contract; a bounded differential search over operation trees and source programs on the real code stands in for them '
-              'and for build/EvalPanic layout (labelled bounded).',
+              'and for build/EvalPanic layout (labelled bounded): reason and line of the first failing operation, and for plain `let v = x op y;` statements '
+              'also the reported span (start and end column) of the operation.',
         note='Trusted: core builder contracts are proved in unit builder (run as part of this check); vstd specs of HashSet/arrays; '
              'std::mem::replace specification (assume_specification); unsigned_as_usize_bits contract (external_body in Verus; proved complete over u64 by the Kani '
              'harness c02_unsigned_as_usize_bits); source locations < 2^32. '
@@ -320,7 +321,7 @@ PROPS = {
               'paths left on the same wires keeps them. NOT under contract: the walk of mux_envs over scopes and names (BTreeMap iteration), and the arms '
               'of compile that USE the environment - VarAssign through nested accessors, the per-path clones of If / Match / JoinLoop / && / ||, the scopes of '
               'Block / FnCall / ForEachLoop; as the labelled bounded stand-in, random programs (let / let mut with shadowing, assignment and op-assignment '
-              'through constant and input-dependent array / tuple / struct accessors, whole-value copies, nested blocks, if / else with side effects in '
+              'through constant and input-dependent array / tuple / struct (three fields) accessors, whole-value copies, right-hand sides with side effects (also under a constant factor), nested blocks, if / else with side effects in '
               'conditions and short-circuit operands, match, for loops, calls of helpers whose parameters carry the names of the caller\'s variables and '
               'that use a constant which the caller shadows) are compiled and compared, on 12 inputs each, with a reference interpreter (lexical scopes, '
               'values copied on assignment and call): all variables of main are compared at the end.',
@@ -379,11 +380,11 @@ PROPS = {
         level='proof',
         technique='Verus contracts on the arithmetic arms of resolve_const_expr_{usize,unsigned,signed} (macro instantiated by R6, arms lifted by R5) against a recursive spec function',
         claim='Deductive proof (Verus/Z3), for every expression tree and every constant assignment, that each arithmetic arm of the three instances of '
-              'the real const-expression evaluator returns the value of the spec function ceval: a literal is its value, max / min are the maximum / '
+              'the real const-expression evaluator returns the value of the spec function ceval: a literal (also one with a signed suffix, in the signed instance) is its value, max / min are the maximum / '
               'minimum of the arguments, + and - wrap in the constant\'s type; the recursive calls are assumed by the same contract (structural '
               'induction). The two lookup arms (format! + HashMap<String,_>) are trusted; substitution equivalence of whole programs, array sizes / '
               'loop counts / party numbers following the constants and the reporting of missing or mistyped constants (compile_with_constants) are '
-              'NOT under contract; a bounded differential through compile_with_constants + eval compares random constant expressions over 9 integer '
+              'NOT under contract; a bounded differential through compile_with_constants + eval compares random constant expressions (incl. literals of the constant\'s type and a constant K0 defined before and used in the expression) over 9 integer '
               'types with substitution semantics, programs whose array sizes / loop trip counts / party counts are constant expressions over '
               'external usize values with the literal-substituted program (shape and outputs), and checks missing / mistyped / extra constants '
               '(error, never a panic).',
@@ -457,7 +458,7 @@ PROPS = {
               'definition order - its pattern for that field, a wildcard where it has none. (6) reported missing cases: the loop body of usefulness that puts a constructor back around a witness row '
               '(lifted) wraps exactly the columns of the constructor\'s own fields - none for a literal, range, unit variant or array - and keeps every other column of the row in order. NOT under contract: the usefulness recursion (usefulness, split_ctor) that composes these steps, the '
               'lowering of struct / enum patterns, parsing: as the labelled bounded stand-in, random and directed arm lists over 14 '
-              'scrutinee types (incl. bounds outside the type, empty and inverted ranges) are decided on the real checker and compared with brute-force '
+              'scrutinee types (incl. bounds outside the type, empty and inverted ranges, struct patterns with a repeated field, a specific component followed by a catch-all that is restricted elsewhere) are decided on the real checker and compared with brute-force '
               'enumeration (accepted exactly when every value is matched; every accepted match compiled and evaluated against the first matching arm; for a rejected '
               'match every reported missing case must be a pattern of the scrutinee type that denotes at least one value and only values no arm matches).',
         note='Trusted: <[T]>::sort_unstable returns a sorted permutation and Vec::dedup keeps the same elements and makes a sorted vector strictly increasing '
